@@ -7,7 +7,7 @@ CFG = {'scale_exponents': [-60, -40, -30, -27, -10, -8],   # the membership orac
                    "GeoModel/RelateSpec.lean", "GeoModel/Valid.lean", "GeoModel/Area.lean",
                    "GeoProofs/Lemmas/C04Wind.lean", "GeoProofs/Lemmas/C04Locate.lean",
                    "GeoProofs/Lemmas/C04XRound.lean", "GeoProofs/Lemmas/C04XMeasure.lean", "GeoProofs/Lemmas/C04XScan.lean",
-                   "GeoProofs/Lemmas/C04XLayer.lean", "GeoProofs/Lemmas/C04XGeneric.lean", "GeoProofs/Lemmas/C04XMulti.lean"],
+                   "GeoProofs/Lemmas/C04XLayer.lean", "GeoProofs/Lemmas/C04XGeneric.lean", "GeoProofs/Lemmas/C04XMulti.lean", "GeoProofs/Lemmas/C04XMembers.lean"],
     "rule": "55% pairs (A, B) of Polygon / MultiPolygon operands on one shared 3..8 grid (polyomino polygons with holes incl. holes tangent to "
             "the shell, star polygons with oblique edges, rectangles with holes, corner-touching / side-by-side multipolygons; identical operands, "
             "a second representation of the same point set, empty Polygon / MultiPolygon operands; a quarter with repeated vertices incl. a repeated "
@@ -31,10 +31,9 @@ CFG = {'scale_exponents': [-60, -40, -30, -27, -10, -8],   # the membership orac
         "(parallel-sort path); the generated operands here stay far below that size",
         "spec adequacy (S2): for a valid polygon, even-odd parity over all its rings = inside — now PROVED from polyValid at every point off the rings "
         "(evenOdd_eq_inside_valid; GeoProofs/Lemmas/C04XScan.lean, C04XLayer.lean, C04XGeneric.lean on top of the WIND / SMLX Jordan lemmas). Member disjointness of a valid MultiPolygon (at most "
-        "one member contains the point) is proved when no member has a hole (members_apart_holefree, booleanOp_pointwise_multi_holefree_partial). Still "
-        "assumed: the same for MultiPolygon operands with two or more members of which one has a hole (hypotheses hda/hdb of "
-        "booleanOp_pointwise_multi_partial; multiPolyValid's II = F is not yet turned into the pointwise statement for members with holes); validated "
-        "numerically by the membership clause on every run",
+        "one member contains a point off the rings) is proved too (members_apart, GeoProofs/Lemmas/C04XMembers.lean: from II = F, dim BB <= 0 of multiPolyValid "
+        "through the atoms of the DE-9IM specification). What S2 still rests on: that Geo.polyValid / multiPolyValid (GeoModel/Valid.lean, exact, decidable) "
+        "is the right formal reading of 'valid (Multi)Polygon' — the driver uses the same definition to decide the domain",
         "measures: the area / length identities are proved for every finitely additive functional on regions that ignores the tolerance band "
         "(AdditiveOn; weighted finite samples are instances); that Lebesgue area / arc length is such a functional is not formalised (no measure theory "
         "is imported) — the driver compares the exact shoelace areas numerically",
@@ -57,8 +56,9 @@ MANIFEST = {
             "S2 itself proved from polyValid at every point off the rings (evenOdd_eq_inside_valid: each simple ring winds 0 or by the sign of its area, a hole "
             "winds only where its shell winds, two holes never wind together; first on levels avoiding the coordinates, then everywhere because the half-open "
             "crossing rule is stable under a small move upwards), hence the pointwise statement at full strength for valid Polygon operands "
-            "(booleanOp_pointwise_polygon), for valid MultiPolygon operands whose members have no holes (booleanOp_pointwise_multi_holefree_partial) and for "
-            "the remaining MultiPolygon operands given that at most one member contains the point (booleanOp_pointwise_multi_partial); "
+            "(booleanOp_pointwise_polygon) and for valid MultiPolygon operands (booleanOp_pointwise: at most one member of a valid MultiPolygon contains a "
+            "point off the rings, members_apart — members with holes, members inside the holes of other members included); the intermediate forms stay as "
+            "theorems (booleanOp_pointwise_multi_partial for members that are only valid one by one, booleanOp_pointwise_multi_holefree_partial); "
             "the indicator identities behind the three area identities, and the area identities themselves for every finitely additive measure on regions "
             "(area_identities, area_eq_expectedArea: the oracle's expected areas are forced by additivity) and for the results of the four operations under "
             "every measure living off the tolerance band (booleanOp_area_identities); the oracle's signed fan carries exactly the shoelace area "
@@ -74,6 +74,6 @@ MANIFEST = {
             "exact oracle written in Lean (expected areas from |A|, |B| and the exact |A∩B|, membership at sample points off the input edges, ring direction and "
             "closedness, unary_union vs fold, clip pieces / coverage / length conservation).",
     "note": "Trusted: Lean kernel + audited axioms; the harness/generators (sampling); the engine assumption EngineSpec (validated numerically every run, not proved); "
-            "S2 only as member disjointness of MultiPolygon operands with a member that has holes (the rest is proved). Hook commit a034e536 (feature verif-hooks: glue functions + raw engine probes). Defect found and repaired: repeated closing vertex "
+            "S2 is no longer trusted (proved from polyValid / multiPolyValid). Hook commit a034e536 (feature verif-hooks: glue functions + raw engine probes). Defect found and repaired: repeated closing vertex "
             "halves the area (F5, fix e438f046).",
 }
